@@ -1,11 +1,11 @@
 # lock-step execution of operation histories on the real DOM and on the extracted heap model
 import vlib, domlib as D
 
-def run_history(ctx, attached, ops, checks, tag, extra_free=()):
+def run_history(ctx, attached, ops, checks, tag, extra_free=(), prelinked=False):
     """ops: list of op tuples over Universe ids. checks: callables (u, ref, step_index, op, outcome) -> complaints.
     returns the universe (for the caller's own inspection)"""
     d = ctx.get_driver()
-    u = D.Universe(attached, extra_free)
+    u = D.Universe(attached, extra_free, prelinked)
     ref = D.Ref(u)
     d.call('dom_init', vlib.sx_show(u.snapshot()))
     hist = []
